@@ -133,8 +133,8 @@ func TestC17(t *testing.T) {
 				rt.Fatalf("harness: %v", err)
 			}
 			c.a.Fleet = sim.FleetPlan{Split: rapid.IntRange(1, 4).Draw(rt, "split"), PageSize: rapid.SampledFrom([]int{1, 7, 50, 1000}).Draw(rt, "page"),
-				ReadyAfter: rapid.SampledFrom([]time.Duration{0, time.Second, 3 * time.Second, 9 * time.Second}).Draw(rt, "readyAfter"),
-				WithErrors: rapid.Bool().Draw(rt, "withErrors")}
+				ReadyAfter: rapid.SampledFrom([]time.Duration{0, time.Second, 3 * time.Second, 5 * time.Second}).Draw(rt, "readyAfter"), // + stagger (<= 4 s) stays below the shortest time-out (10 s)
+				WithErrors: rapid.Bool().Draw(rt, "withErrors"), StaggerMod: rapid.SampledFrom([]int{0, 2, 3, 5}).Draw(rt, "stagger")}
 			// stale cache: the real desired capacity drifts after the provider's last refresh
 			stale := rapid.IntRange(0, 4).Draw(rt, "stale") == 0
 			if stale && c.asg.Desired > c.asg.Min {
@@ -468,6 +468,8 @@ func TestC18Consecutive(t *testing.T) {
 				}
 				exited := false
 				var err error
+				d := int64(rapid.IntRange(1, 25).Draw(rt, "d"))
+				mark := c.j.Mark()
 				func() {
 					defer func() {
 						if r := recover(); r != nil {
@@ -478,9 +480,26 @@ func TestC18Consecutive(t *testing.T) {
 							panic(r)
 						}
 					}()
-					err = c.ng.IncreaseSize(int64(rapid.IntRange(1, 25).Draw(rt, "d")))
+					callTarget(rt, "C18", "IncreaseSize (fleet)", func() { err = c.ng.IncreaseSize(d) })
 				}()
 				col.Eval(1)
+				if failing {
+					// whatever the attempt number, every acquired instance is attached or submitted for termination
+					es := c.j.Since(mark)
+					var fleetE *sim.Entry
+					for k := range es {
+						if es[k].Kind == sim.ACreateFleet {
+							fleetE = &es[k]
+						}
+					}
+					errForJudge := err
+					if exited {
+						errForJudge = fmt.Errorf("exit")
+					}
+					if sig, msg, _ := judgeFleetFailure(int(d), fleetFailure{mode: "never-ready"}, es, fleetE, errForJudge); sig != "" && !isKnown(sig) {
+						fail(rt, dumpPath(), sig, "pattern %s (exited=%v): %s", pattern, exited, msg)
+					}
+				}
 				if failing {
 					consecutive++
 				} else {
@@ -523,10 +542,41 @@ func TestC19Direct(t *testing.T) {
 			for i := 0; i < 2; i++ {
 				foreignIDs = append(foreignIDs, c.a.NewInstance(other.Name))
 			}
-			members := append([]string{}, c.asg.Instances...)
 			nodeFor := func(inst *sim.Instance, name string) *v1.Node {
 				return &v1.Node{ObjectMeta: metav1.ObjectMeta{Name: name}, Spec: v1.NodeSpec{ProviderID: inst.ProviderID()}}
 			}
+			// an earlier life of the same provider object: a removal or membership question, then the
+			// group changes (replacement, re-ordering, same size) and the provider refreshes
+			warm := rapid.SampledFrom([]string{"", "", "belongs", "delete"}).Draw(rt, "earlierCall")
+			if warm != "" && len(c.asg.Instances) > 0 {
+				first := c.a.Instances[c.asg.Instances[rapid.IntRange(0, len(c.asg.Instances)-1).Draw(rt, "earlierNode")]]
+				switch warm {
+				case "belongs":
+					callTarget(rt, "C19", "Belongs", func() { _ = c.ng.Belongs(nodeFor(first, "earlier")) })
+				case "delete":
+					callTarget(rt, "C19", "DeleteNodes (earlier)", func() { _ = c.ng.DeleteNodes(nodeFor(first, "earlier")) })
+				}
+				switch rapid.SampledFrom([]string{"replace", "rotate", "none"}).Draw(rt, "groupChange") {
+				case "replace":
+					if len(c.asg.Instances) > 0 {
+						c.a.Kill(c.asg.Instances[0])
+						c.a.NewInstance(c.asg.Name)
+					}
+				case "rotate":
+					if n := len(c.asg.Instances); n > 1 {
+						c.asg.Instances = append(c.asg.Instances[1:], c.asg.Instances[0])
+					}
+				}
+				if c.asg.Desired < min {
+					c.asg.Desired = min
+				}
+				if err := c.prov.Refresh(); err != nil {
+					rt.Fatalf("harness: refresh: %v", err)
+				}
+				desired = c.asg.Desired
+				lingering = int64(len(c.asg.Instances)) - desired
+			}
+			members := append([]string{}, c.asg.Instances...)
 			n := rapid.IntRange(0, 6).Draw(rt, "nodes")
 			var nodes []*v1.Node
 			var kinds []string
@@ -566,7 +616,7 @@ func TestC19Direct(t *testing.T) {
 			col.Eval(1)
 			desc := func() string {
 				var b strings.Builder
-				fmt.Fprintf(&b, "DeleteNodes(%v) kinds=%v on asg(min=%d cachedDesired=%d instances=%d) failNth=%d stale=%v -> err=%v (%T)\n", nodeNames(nodes), kinds, min, desired, desired+lingering, failNth, stale, err, err)
+				fmt.Fprintf(&b, "DeleteNodes(%v) kinds=%v on asg(min=%d cachedDesired=%d instances=%v) earlier=%q failNth=%d stale=%v -> err=%v (%T)\n", nodeNames(nodes), kinds, min, desired, members, warm, failNth, stale, err, err)
 				for _, e := range es {
 					fmt.Fprintf(&b, "  %s\n", e.String())
 				}
